@@ -12,13 +12,14 @@ T(w) == Lit(w)
 ST == [t |-> "star"]
 TT == [t |-> "tilde"]
 Rule(pat, logic, dl, inst, kids) ==
-  [pat |-> pat, kids |-> kids, glob |-> FALSE, ign |-> FALSE, logic |-> logic, dl |-> dl, inst |-> inst, perm |-> FALSE]
+  [pat |-> pat, kids |-> kids, glob |-> FALSE, ign |-> FALSE, logic |-> logic, dl |-> dl, inst |-> inst, perm |-> FALSE, icase |-> FALSE]
 Plain(pat, inst, kids) == Rule(pat, "default", "default", inst, kids)
 Glob(r)  == [r EXCEPT !.glob = TRUE]
 Ign(r)   == [r EXCEPT !.ign = TRUE]
 Ord(r)   == [r EXCEPT !.logic = "ordered", !.dl = "ordered", !.perm = TRUE]
 Rew(r)   == [r EXCEPT !.logic = "rewrite", !.dl = "rewrite", !.perm = TRUE]
 Logic(r, l) == [r EXCEPT !.logic = l]
+Icase(r) == [r EXCEPT !.icase = TRUE]      \* %ignore_case: concerns THIS rule's lines only (its instances here are lower-case, so folding changes nothing)
 
 Catalog == <<
   [name |-> "flat", rules |-> <<
@@ -95,12 +96,19 @@ Catalog == <<
       Plain(<<T("blk"), T("1")>>, << << <<"blk","1">> >> >>, <<
           Plain(<<T("x"), ST>>, << << <<"x","1">> >>, << <<"x","2">> >> >>, <<>>) >>),
       Plain(<<T("blk"), ST>>, << << <<"blk","2">> >> >>, <<
-          Plain(<<T("y")>>, << << <<"y">>, <<"y","w">> >> >>, <<>>) >>) >>],
+          Plain(<<T("y")>>, << << <<"y">>, <<"y","w">> >> >>, <<>>),
+          \* the general rule also has a rule for `x`, without a key: under `blk 1` the specific rule's keyed `x *` comes first and governs
+          Plain(<<T("x")>>, <<>>, <<>>) >>) >>],
   [name |-> "rewrite-deep", rules |-> <<           \* a %rewrite rule over blocks: a change three levels down re-sends the whole block
       Plain(<<T("rd"), ST>>, << << <<"rd","1">> >> >>, <<
           Rew(Plain(<<T("r"), ST>>, << << <<"r","1">> >>, << <<"r","2">> >> >>, <<
               Plain(<<T("c"), ST>>, << << <<"c","1">> >> >>, <<
                   Plain(<<T("g"), ST>>, << << <<"g","1">> >>, << <<"g","2">> >> >>, <<>>) >>) >>)) >>) >>],
+  [name |-> "icase-sibling", rules |-> <<          \* a case-insensitive rule next to an ordinary one whose lines differ in letter case only
+      Plain(<<T("blk"), ST>>, << << <<"blk","1">> >> >>, <<
+          Icase(Plain(<<T("ic"), ST>>, << << <<"ic","1">> >> >>, <<>>)),
+          Plain(<<T("x"), ST>>, << << <<"x","A">> >>, << <<"x","a">> >>, << <<"x","b">> >> >>, <<>>) >>),
+      Plain(<<T("top"), ST>>, << << <<"top","Q">> >>, << <<"top","q">> >> >>, <<>>) >>],
   [name |-> "ignore-exception", rules |-> <<       \* `!` exceptions written AFTER the general rule they carve out of, and a %global one above a local catch-all
       Plain(<<T("ip"), TT>>, << << <<"ip","a","1">> >>, << <<"ip","b">> >> >>, <<>>),
       Ign(Plain(<<T("ip"), T("secret"), TT>>, <<>>, <<>>)),
